@@ -499,6 +499,12 @@ def sites_strategy(tier):
     return cases()
 
 
+def lib_frame_(e):
+    from ..core import lib_frame
+
+    return lib_frame(e)
+
+
 def run_sites(ctx, case):
     site, s = case["site"], "".join(chr(c) for c in case["s"])
     w, writer, expected = _sites()[site]
@@ -552,6 +558,33 @@ def run_sites(ctx, case):
                 obj._write(stream)
             except Exception:  # noqa
                 pass
+            # a copy / deep copy / pickle round trip of the item is the same item: still refused, never a shortened text
+            import copy as _copy
+            import pickle
+
+            for how, clone in (("copy.copy", _copy.copy), ("copy.deepcopy", _copy.deepcopy), ("pickle", lambda o: pickle.loads(pickle.dumps(o)))):
+                try:
+                    twin = clone(obj)
+                except Exception:  # noqa - an item that cannot be cloned that way: nothing to hold it to
+                    continue
+                st2 = io.BytesIO()
+                try:
+                    twin._write(st2)
+                    wrote = True
+                except ValueError:
+                    wrote = False
+                except Exception as e:  # noqa
+                    wrote = False
+                    if lib_frame_(e):
+                        cloned_wrong = f"{how}: {type(e).__name__}"
+                        break
+                if wrote:
+                    cloned_wrong = f"{how}: wrote {len(st2.getvalue())} bytes, text now {len(str(getattr(twin, attr)))} chars"
+                    break
+            else:
+                cloned_wrong = None
+            if cloned_wrong:
+                ctx.fail(f"{site}/clone-of-invalid-item-writable", f"{site}: an item carrying a text of {len(s)} chars is refused, but its clone is not ({cloned_wrong})")
             enc = cp1252.encode(s)
             if enc[:w] in stream.getvalue():
                 ctx.fail(f"{site}/refused-text-left-in-stream", f"{site}: text of {len(s)} chars was refused with ValueError, but {w} bytes of it are in the stream "
@@ -649,3 +682,5 @@ SUBS = [
 ]
 from ..core import optimised_child_sub  # noqa: E402
 SUBS.append(optimised_child_sub("C13", ["write-exhaustive", "block-sites-pairs"]))
+SUBS.append(optimised_child_sub("C13", ["write-exhaustive", "block-sites"], flags=("-bb",), name="under-python-bb",
+                                what="comparing or formatting bytes as str raises BytesWarning: a refusal must still be the ValueError it is"))
